@@ -12,7 +12,14 @@ B0 == [nlo |-> 0, nhi |-> 0, mlo |-> 1, mhi |-> 1, default |-> FALSE, delay |-> 
 Extra == IF Nlo # 0 THEN {}
          ELSE {[B0 EXCEPT !.nlo = n, !.nhi = n + 2, !.mlo = m, !.default = df, !.delay = 1, !.conc = kk] : n \in {1, 17, 64, 1000}, m \in {3}, df \in BOOLEAN, kk \in {2, 17, 40, 100}}
               \cup {[B0 EXCEPT !.nlo = n, !.nhi = n, !.mlo = m, !.default = df, !.nest = dd] : n \in {1, 5, 64}, m \in {3}, df \in BOOLEAN, dd \in {1, 2, 17, 20}}
-Blocks == Extra \cup {[conc |-> 0, nest |-> 0, nlo |-> Nlo + Band * b, nhi |-> (IF Nlo + Band * b + Band - 1 > Nhi THEN Nhi ELSE Nlo + Band * b + Band - 1),
+(* beyond the dense grid: sparse points with LARGE sizes and LARGE worker limits (limits far above any CPU count are legal: MultiExpConfig.NbTasks
+   goes up to 1024) around the powers of two, each limit with its two neighbours: emitted once, with the first band *)
+Tier == IF "VERIF_TIER" \in DOMAIN IOEnv THEN IOEnv.VERIF_TIER ELSE "quick"
+BigN == {255, 256, 257, 511, 512, 513, 1023, 1024, 1025, 2047, 2048, 2049, 4097, 5003, 65537} \cup (IF Tier = "quick" THEN {} ELSE {3000, 10007, 100003, 1048577})
+BigM == {65, 100, 128, 256, 257, 300, 512, 1000, 1024, 4096, 65536} \cup (IF Tier = "quick" THEN {} ELSE {2000, 16384, 1048576})
+Sparse == IF Nlo # 0 THEN {}
+          ELSE {[B0 EXCEPT !.nlo = n, !.nhi = n, !.mlo = m - 1, !.mhi = m + 1] : n \in BigN, m \in BigM}
+Blocks == Extra \cup Sparse \cup {[conc |-> 0, nest |-> 0, nlo |-> Nlo + Band * b, nhi |-> (IF Nlo + Band * b + Band - 1 > Nhi THEN Nhi ELSE Nlo + Band * b + Band - 1),
             mlo |-> 1, mhi |-> Mhi, default |-> FALSE, delay |-> (b % 3)] : b \in 0 .. ((Nhi - Nlo) \div Band)}
           \cup {[conc |-> 0, nest |-> 0, nlo |-> Nlo, nhi |-> (IF Nhi > Nlo + 400 THEN Nlo + 400 ELSE Nhi), mlo |-> 1, mhi |-> 1, default |-> TRUE, delay |-> 1]}
 VARIABLE done
